@@ -104,6 +104,7 @@ type extTx struct {
 	NameB  common.Hash
 	Amount *big.Int
 	ToTok  bool // the transaction is addressed to the listed token contract
+	Orig   *extTx // set on a second spelling of an external transaction: the same RLP with bytes after it
 }
 
 func (x *extTx) Name() string { return new(big.Int).SetBytes(x.NameB[:]).String() }
@@ -585,6 +586,18 @@ func (e *ethRun) genSubmit(v *ethView) *ethOp {
 
 func (e *ethRun) genDuplicate() *ethOp {
 	x := e.exts[e.r.Intn(len(e.exts))]
+	if x.Orig == nil && x.Pre == 0 && (x.Kind == 1 || x.Kind == 3) && e.r.Intn(3) == 0 {
+		// the same external transaction under another spelling of the payload: the tracker is named
+		// after the payload BYTES, so a payload that decodes to the same Ethereum transaction but is
+		// not byte-identical would be a second tracker for it (the strict RLP decoder refuses it).
+		// Locks only: the redeem handlers never decode the payload as a transaction (they look for
+		// the method selector in the bytes), so for them the bytes ARE the external transaction and a
+		// padded payload is simply another, undecodable one that the witnesses will fail.
+		raw := append(append([]byte{}, x.Raw...), e.r.Bytes(1+e.r.Intn(33))...)
+		y := &extTx{Kind: x.Kind, Pre: 1 /* not decodable: what the model expects the strict decoder to say */, Raw: raw, NameB: common.BytesToHash(raw), Amount: x.Amount, ToTok: x.ToTok, Orig: x}
+		who := e.w.Accts[e.r.Intn(len(e.w.Accts))]
+		return e.submitOp(y, who, "duplicate-respelled")
+	}
 	who := e.w.Accts[e.r.Intn(len(e.w.Accts))]
 	if in, ok := e.inst[x.Name()]; ok && e.r.Bool() {
 		for _, a := range e.w.Accts {
@@ -1013,6 +1026,14 @@ func (e *ethRun) monitorTx(op *ethOp, code uint32, pre, post *ethView) {
 			} else {
 				e.hit("duplicate-submission-accepted-"+sig, where+": "+detail)
 			}
+		}
+		if o := op.Ext.Orig; o != nil {
+			for i, st := range []string{"ongoing", "passed", "failed"} {
+				if pre.Store[i][o.Name()] != nil || post.Store[i][o.Name()] != nil {
+					e.hit("same-external-transaction-backs-second-tracker", fmt.Sprintf("%s: a payload that is the RLP of an already submitted external transaction followed by %d more bytes was accepted under another tracker name while the %s store holds the first", where, len(op.Ext.Raw)-len(o.Raw), st))
+				}
+			}
+			e.res.Counters["respelled_payload_accepted"]++
 		}
 		if tPre != nil {
 			dup("while-ongoing", fmt.Sprintf("an ongoing tracker (type %d, owner %s, votes %v, state %d) was replaced", tPre.Type, addrNum(tPre.ProcessOwner), tPre.FinalityVotes, tPre.State))
